@@ -1,7 +1,7 @@
 //! unit: u07b
 //! properties: C06 C07
 //! note: claim aggregation in OnchainTxHandler::update_claims_view_from_requests: merging claim requests never loses or duplicates an input, whatever can_merge_with answers
-//! trusted: R15 (deep slice): the aggregation loop nest of update_claims_view_from_requests verbatim as a function of the request vector; duplicate filtering before it, the time-lock split and claim generation after it are dropped and not claimed
+//! trusted: R15 (deep slice): the aggregation loop nest of update_claims_view_from_requests verbatim as a function of the request vector; the two tests of the time-lock split are extracted as two further slices; duplicate filtering before it and claim generation after it are dropped and not claimed
 //! trusted: R6: `for i in (1..requests.len()).rev() { B }` becomes a down-counting while loop over the range evaluated once (std semantics of Range/Rev), `for j in 0..i` a counting loop; `requests[j].merge_package(..)` is written `requests.get_mut(j).unwrap().merge_package(..)` (IndexMut) with its result bound to a temporary before the `if let` so that proof hints can sit between (R9, same evaluation order); PackageTemplate is a stub with a ghost input count; can_merge_with is external_body with an unconstrained answer; merge_package is external_body with the contract proved for the real function in unit u07 (Ok: inputs are concatenated; Err: self unchanged and the argument handed back) - its pkg_wf precondition is not re-established here (assumed preserved by merging)
 use vstd::prelude::*;
 verus! {
@@ -85,6 +85,32 @@ pub proof fn lemma_total_insert(s: Seq<PackageTemplate>, i: int, p: PackageTempl
     requests.insert(i, rejected);
 //@with
     let _ = rejected;
+//@end
+
+// a claim whose locktime is in the future waits; everything due up to and including the current height is claimed now
+//@extract lightning/src/chain/onchaintx.rs :: impl OnchainTxHandler :: fn update_claims_view_from_requests
+//@slice R15
+    let package_locktime = req.package_locktime(cur_height); if $c:cond { $delay:any } else { preprocessed_requests.push(req); }
+//@with
+    fn claim_is_delayed(package_locktime: u32, cur_height: u32) -> bool { $c }
+//@ret r
+//@ensures P C06,C07 a-claim-is-held-back-exactly-while-its-locktime-is-above-the-current-height
+    r == (package_locktime > cur_height),
+//@mutant claim_due_now_held_back
+    package_locktime > cur_height
+//@with
+    package_locktime >= cur_height
+//@end
+//@extract lightning/src/chain/onchaintx.rs :: impl OnchainTxHandler :: fn update_claims_view_from_requests
+//@slice R15
+    let remaining_locked_packages = self.locktimed_packages.split_off(&($k));
+//@with
+    fn first_height_still_locked(cur_height: u32) -> u32 { $k }
+//@ret r
+//@requires
+    cur_height < u32::MAX,
+//@ensures P C06,C07 delayed-claims-are-released-as-soon-as-the-chain-reaches-their-locktime
+    r == cur_height + 1,
 //@end
 }
 fn main() {}
